@@ -678,6 +678,20 @@ def self_exclusion(ctx: Ctx):
                 slc = n.targets[0].slice
                 if isinstance(slc, ast.Tuple) and len(slc.elts) == 2 and isinstance(slc.elts[1], ast.Name) and slc.elts[1].id in ps:
                     out.add(slc.elts[1].id)
+            if depth < 2 and isinstance(n, ast.Call) and isinstance(n.func, ast.Name) and n.func.id in sl_.module.functions:
+                fnode = sl_.module.functions[n.func.id]
+                fps = [a.arg for a in fnode.args.posonlyargs + fnode.args.args]
+                inner = set()
+                for x in ast.walk(fnode):
+                    if isinstance(x, ast.Assign) and isinstance(x.targets[0], ast.Subscript) and u(x.value) == "False":
+                        slc = x.targets[0].slice
+                        if isinstance(slc, ast.Tuple) and len(slc.elts) == 2 and isinstance(slc.elts[1], ast.Name) and slc.elts[1].id in fps:
+                            inner.add(slc.elts[1].id)
+                bound_f = dict(zip(fps, n.args))
+                bound_f.update({k.arg: k.value for k in n.keywords if k.arg})
+                for fp, av in bound_f.items():
+                    if fp in inner and isinstance(av, ast.Name) and av.id in ps:
+                        out.add(av.id)
             if depth < 2 and isinstance(n, ast.Call) and isinstance(n.func, ast.Attribute) and isinstance(n.func.value, ast.Name) and n.func.value.id in ("self", "cls", "_Slice", "CubePartition"):
                 h = ctx.repo.lookup(sl_, n.func.attr)
                 if h is not None and h is not member and h.kind in ("method", "staticmethod", "classmethod"):
@@ -691,29 +705,38 @@ def self_exclusion(ctx: Ctx):
         return out
 
     masked = masked_params(pi) if pi is not None else set()
+    from ..stmts import reachable_functions
+    from .common import _position_vars
+
     for prop in ("pairwise_indices", "pairwise_indices_alt"):
-        m = ctx.repo.lookup(sl_, prop)
         w = f"cubepart.py::_Slice.{prop}"
-        passes = False
-        for c in ast.walk(m.node):
-            if isinstance(c, ast.Call) and u(c.func).endswith("._pairwise_indices"):
-                # the enclosing comprehension's loop variable handed to a masked parameter
-                for comp in ast.walk(m.node):
-                    if isinstance(comp, (ast.ListComp, ast.GeneratorExp)) and any(x is c for x in ast.walk(comp)):
-                        loopvars = {g.target.id for g in comp.generators if isinstance(g.target, ast.Name)}
-                        bound = dict(zip(params, c.args))
-                        bound.update({k.arg: k.value for k in c.keywords if k.arg})
-                        if any(p_ in masked and isinstance(v_, ast.Name) and v_.id in loopvars for p_, v_ in bound.items()):
-                            passes = True
+        if ctx.repo.lookup(sl_, prop) is None:
+            ctx.undecided("self-exclusion", w, "accessor not found", "never the column itself")
+            continue
+        # every call of _pairwise_indices reachable from the accessor (through helper methods, loops or comprehensions): is
+        # the masked parameter bound to the loop position?
+        passes, omits, n_calls = False, False, 0
+        for fn in reachable_functions(ctx.repo, sl_, prop, depth=3):
+            loopvars = _position_vars(fn)
+            for c in ast.walk(fn):
+                if isinstance(c, ast.Call) and (u(c.func).endswith("._pairwise_indices") or u(c.func) == "_pairwise_indices"):
+                    n_calls += 1
+                    bound = dict(zip(params, c.args))
+                    bound.update({k.arg: k.value for k in c.keywords if k.arg})
+                    if any(p_ in masked and isinstance(v_, ast.Name) and v_.id in loopvars for p_, v_ in bound.items()):
+                        passes = True
+                    elif masked and not any(p_ in masked for p_ in bound):
+                        omits = True
         if isinstance(self_p, (int, float)) and not isinstance(self_p, bool) and self_p >= 1:
             ctx.held("self-exclusion", w, f"p(a, a) = {self_p} on every path", "a column is never significantly different from itself")
-        elif passes:
+        elif passes and not omits:
             ctx.held("self-exclusion", w, f"p(a, a) = {self_p!r} on the overlaps path; the selected column is masked in the index sets", "never the column itself")
-        elif isinstance(self_p, (int, float)) and not isinstance(self_p, bool):
+        elif isinstance(self_p, (int, float)) and not isinstance(self_p, bool) and n_calls and (not masked or omits):
+            # positive evidence: nothing masks a selected column at all, or a call leaves the selected column out
             ctx.violated("self-exclusion", w, f"the overlaps helper reports p(a, a) = {self_p} and the index sets keep every column with p < alpha", "the selected column is excluded from its own index sets",
                          "without only-larger mode every column lists itself on the overlaps path")
         else:
-            ctx.undecided("self-exclusion", w, f"p(a, a) = {self_p!r}", "never the column itself")
+            ctx.undecided("self-exclusion", w, f"p(a, a) = {self_p!r}; calls of _pairwise_indices found: {n_calls}", "never the column itself")
 
 
 def translation(ctx: Ctx):
